@@ -126,17 +126,30 @@ void h_erase(void) {
 }
 
 /* ---------------------------------------------------------------- swap */
-/* mem_swap takes two slots of ONE storage block (w_ok + disjointness, not is_fresh), so the harness builds the block */
-void h_mem_swap(void) {
-    size_t n = nondet_size_t(), o1 = nondet_size_t(), o2 = nondet_size_t();
-    __CPROVER_assume(n >= 2 * ISZ && n <= ((size_t)1 << 40));
-    __CPROVER_assume(o1 <= n - ISZ && o2 <= n - ISZ && (o1 + ISZ <= o2 || o2 + ISZ <= o1));
-    uint8_t *block = malloc(n);
-    __CPROVER_assume(block != NULL);
+/* mem_swap: (1) two separate objects; (2) two slots of ONE 3-slot block, every ordered placement (the call site in
+ * aws_array_list_swap passes data + a*ISZ and data + b*ISZ of one block).  Symbolic byte offsets inside a block of
+ * symbolic size make CBMC flatten every memcpy against the whole block (minutes, GBs), so the placements are
+ * enumerated as constants, one harness each. */
+void h_mem_swap_two_objects(void) {
+    uint8_t *p = malloc(ISZ), *q = malloc(ISZ);
+    __CPROVER_assume(p != NULL && q != NULL);
     GHOSTS();
-    aws_array_list_mem_swap(block + o1, block + o2, ISZ);
-    if (o1 < o2) CANARY("first slot below second"); else CANARY("first slot above second");
+    aws_array_list_mem_swap(p, q, ISZ);
+    CANARY("returned");
 }
+static uint8_t s_block[3 * VERIF_ITEM_SIZE];
+#define H_MEM_SWAP_SLOTS(A, B)                                                                                         \
+    void h_mem_swap_##A##B(void) {                                                                                     \
+        GHOSTS();                                                                                                      \
+        aws_array_list_mem_swap(s_block + A * ISZ, s_block + B * ISZ, ISZ);                                            \
+        CANARY("returned");                                                                                            \
+    }
+H_MEM_SWAP_SLOTS(0, 1)
+H_MEM_SWAP_SLOTS(1, 0)
+H_MEM_SWAP_SLOTS(0, 2)
+H_MEM_SWAP_SLOTS(2, 0)
+H_MEM_SWAP_SLOTS(1, 2)
+H_MEM_SWAP_SLOTS(2, 1)
 void h_swap(void) {
     struct aws_array_list *l; size_t a, b;
     GHOSTS();
